@@ -91,6 +91,8 @@ def explore(ctx):
                                        [1], [1, 2], [0, 'a'], [], {'p': 1}, {'p': 2}, {'q': 0}, rng.randint(-3, 3), rng.choice(['a', 'b', 'c'])])
             rows.append(r)
         keys = rng.sample(['x', 'y', 'z', 'nope'], rng.randint(1, 3))
+        if rng.random() < 0.08:
+            keys = []              # `sort` / `sort desc` without keys: all columns, in the direction written
         direction = rng.choice([None, 'asc', 'desc', 'desc'])
         stages = [('json', None), ('sort', [col(k) for k in keys], direction)]
         lines = [gen.jtext(r) for r in rows]
@@ -118,6 +120,9 @@ def explore(ctx):
             r['ts'] = gen.gen_ts(rng)
         other = rng.choice(['k', 'g', 'flag'])
         keys = rng.choice([[col('_timeslice')], [col(other), col('_timeslice')], [col('_timeslice'), col(other)]])
+        if rng.random() < 0.3:
+            # the key written with redundant parentheses: the column is then NAMED `(_timeslice)`, and still is the time axis
+            keys = [('paren', e) if e[1] == '_timeslice' else e for e in keys]
         st = ('agg', [(None, ('count', None))] + ([(None, ('sum', col('a')))] if rng.random() < 0.5 else []), [(None, e) for e in keys])
         tail = [] if rng.random() < 0.7 else [('limit', rng.choice([2, 5, None]))]
         cases.append(Case('ts%d' % i, STAR, [('json', None), ('timeslice', ('call', 'parseDate', [col('ts')]), rng.choice([3600, 60, 86400]) * 10**9, None), st] + tail,
@@ -153,6 +158,8 @@ def explore(ctx):
             if spec is None:
                 def kv(o):
                     w = want[o['id']]
+                    if not keys:
+                        return [w['id']]          # no keys: ordered by all columns, of which the unique `id` comes first
                     return [w.get(k, MISSING) if k in w else MISSING for k in keys]
                 for a, b in zip(out, out[1:]):
                     ka, kb = kv(a), kv(b)
@@ -170,10 +177,10 @@ def explore(ctx):
                 base = by_id[c.cid[:-5]]
                 if base['impl']['kind'] == 'table' and [aglib.canon_key(x) for x in base['impl']['rows']] != [aglib.canon_key(x) for x in out]:
                     spec = 'the same rows in a different arrival order were sorted differently (tie-break not deterministic)'
-            if len(rows) >= 5 and len({aglib.canon_key(aggoracle.canon_in(row.get(keys[0]))) for row in rows}) < len(rows):
+            if keys and len(rows) >= 5 and len({aglib.canon_key(aggoracle.canon_in(row.get(keys[0]))) for row in rows}) < len(rows):
                 nontrivial.add(c.query + '\0' + c.inp.decode('utf8', 'replace'))
         elif 'timesliced' in c.tags and impl['kind'] == 'table' and impl['rows']:
-            tsl = [str(r0.get('_timeslice')) for r0 in impl['rows']]
+            tsl = [str(r0.get('_timeslice', r0.get('(_timeslice)'))) for r0 in impl['rows']]
             if tsl != sorted(tsl):
                 spec = 'an aggregation grouped by _timeslice is not ordered by time: %r' % tsl[:6]
         elif 'implicit' in c.tags and not c.note['limited'] and impl['rows']:
@@ -206,7 +213,7 @@ def explore(ctx):
             tags[t] = tags.get(t, 0) + 1
     cov = {
         'evaluations': len(cases), 'distinct_nontrivial': len(nontrivial),
-        'rule': 'record streams of 0..25 rows with mixed-type cells (null, bools, ints incl. +-2^53, floats, strings, arrays, objects, missing) sorted by 1..3 plain keys '
+        'rule': 'record streams of 0..25 rows with mixed-type cells (null, bools, ints incl. +-2^53, floats, strings, arrays, objects, missing) sorted by 0..3 plain keys (no key = all columns) '
                 '(incl. a missing column) in either direction, each also with the input shuffled; aggregations with their implicit sort (with and without limit); '
                 'computed keys against the model; non-trivial = >=5 rows with a tie on the first key',
         'samples': samples_of([c for c in cases if 'sort' in c.tags][4:7]),
